@@ -346,7 +346,8 @@ void vf_case(Ctx& ctx, uint64_t i) {
   if (r.chance(0.25)) {
     int64_t x0 = 0, y0 = 0, x1 = 0, y1 = 0; bool any = false; bounds(concat(S, C), x0, y0, x1, y1, any);
     int64_t bx0 = r.range(x0, x1), bx1 = r.range(x0, x1), by0 = r.range(y0, y1), by1 = r.range(y0, y1);
-    if (bx0 > bx1) std::swap(bx0, bx1); if (by0 > by1) std::swap(by0, by1);
+    if (bx0 > bx1) std::swap(bx0, bx1);
+    if (by0 > by1) std::swap(by0, by1);
     if (bx1 - bx0 >= 4 && by1 - by0 >= 4) {
       Paths64 S2 = S, C2 = C; (r.chance(0.7) ? C2 : S2).push_back(gen::box(bx0, by0, bx1, by1, r.coin()));
       Paths64 cl = concat(S2, C2);
